@@ -43,7 +43,8 @@ Record obs := {
   o_hkdf : list string;                (* distinct hash names given to the TLS 1.3 key schedule *)
   o_n : Z; o_c2s : list Z; o_s2c : list Z;  (* application data: payload bytes, record body lengths *)
   o_exp_same : bool; o_exp_kind : string;   (* keyingMaterialExporter: both ends equal; PRF/hash that produced it *)
-  o_post : option post
+  o_post : option post;
+  o_resumed : bool                          (* TLS <= 1.2 abbreviated handshake; o_sid is then the suite of the RESUMED session *)
 }.
 
 Definition with_meaning (o : obs) (f : meaning -> bool) : bool :=
@@ -74,6 +75,7 @@ Definition expected_signed (m : meaning) : bool :=
 
 Definition chk_kx (o : obs) : bool := with_meaning o (fun m =>
   let v := o_ver o in
+  if o_resumed o then String.eqb (o_wire_kx o) "resumed" else
   String.eqb (o_wire_kx o) (expected_wire_kx m)
   && (if v =? 4 then true else
         Bool.eqb (o_ske_signed o) (expected_signed m)
@@ -142,6 +144,29 @@ Definition chk_post (o : obs) : bool := with_meaning o (fun m =>
     | None => false
     end
   else true).
+
+(* TLS 1.3 handshake with externally provisioned PSKs *)
+Record pskobs := {
+  k_suite : Z;                    (* suite in the ServerHello *)
+  k_configured : list string;     (* hash each configured PSK is bound to, in identity order *)
+  k_selected : option Z;          (* selected_identity of the ServerHello, if any *)
+  k_srv : list string;            (* distinct hash names the SERVER handed to HKDF/HMAC helpers (binder check included) *)
+  k_cli : list string             (* distinct hash names the CLIENT handed to them, its per-PSK binder computations apart *)
+}.
+Definition chk_pskobs (k : pskobs) : bool :=
+  match meaning_of (k_suite k) with
+  | Some m =>
+      let h := prf_at m 4 in
+      match k_selected k with
+      | Some i => (0 <=? i) && match nth_error (k_configured k) (Z.to_nat i) with
+                               | Some ph => String.eqb ph h
+                               | None => false
+                               end
+      | None => true
+      end
+      && slist_eqb (k_srv k) [h] && slist_eqb (k_cli k) [h]
+  | None => false
+  end.
 
 (* the Python twin of the registry and of parse_name (harness/c20_iana.py) says the same *)
 Definition twin_ok (c : Z * option string * option (list Z)) : bool :=
